@@ -252,28 +252,29 @@ _b20 = checks
 
 def h_sequences(eng, steps=4, op0=None, key0=None, val0=None):
     vals = [b"1", b"2", b"x y"]
-    keys = [b"fetch", b"url"]
+    keys = [b"fetch", b"url", b"Fetch"]             # variable names are case-insensitive: fetch and Fetch are one key
     sec = (b"remote", b"origin")
     cf = CF.ConfigFile()
-    model = []          # ordered list of (key, value)
+    model = []          # ordered list of (lower-cased key, value)
     for s in range(steps):
         op = op0 if (s == 0 and op0 is not None) else eng.choice(f"op{s}", 3)
-        k = keys[key0 if (s == 0 and key0 is not None) else eng.choice(f"key{s}", 2)]
+        k = keys[key0 if (s == 0 and key0 is not None) else eng.choice(f"key{s}", 3)]
         v = vals[val0 if (s == 0 and val0 is not None) else eng.choice(f"val{s}", 3)]
+        lk = k.lower()
         if op == 0:
             cf.set(sec, k, v)
-            model = [(kk, vv) for kk, vv in model if kk != k] + [(k, v)]
+            model = [(kk, vv) for kk, vv in model if kk != lk] + [(lk, v)]
         elif op == 1:
             cf.add(sec, k, v)
-            model.append((k, v))
+            model.append((lk, v))
         else:
             try:
                 cf.remove(sec, k)
             except KeyError:
                 pass
-            model = [(kk, vv) for kk, vv in model if kk != k]
+            model = [(kk, vv) for kk, vv in model if kk != lk]
         for kk in keys:
-            want = [vv for k2, vv in model if k2 == kk]
+            want = [vv for k2, vv in model if k2 == kk.lower()]
             try:
                 got = list(cf.get_multivar(sec, kk))
             except KeyError:
@@ -283,7 +284,7 @@ def h_sequences(eng, steps=4, op0=None, key0=None, val0=None):
     cf.write_to_file(f)
     cf2 = CF.ConfigFile.from_file(io.BytesIO(f.getvalue()))
     for kk in keys:
-        want = [vv for k2, vv in model if k2 == kk]
+        want = [vv for k2, vv in model if k2 == kk.lower()]
         try:
             got = list(cf2.get_multivar(sec, kk))
         except KeyError:
@@ -295,13 +296,13 @@ def checks(tier):
     q = ("quick", "thorough")
     enc = "dulwich.config."
     return _b20(tier) + [
-        KCheck("C20b.sequences_4", h_sequences, parts=[{"steps": 4, "op0": o, "key0": k, "val0": v} for o in range(3) for k in range(2) for v in range(3)],
+        KCheck("C20b.sequences_4", h_sequences, parts=[{"steps": 4, "op0": o, "key0": k, "val0": v} for o in range(3) for k in range(3) for v in range(3)],
                encoded=[enc + "ConfigDict.set/add/remove/get_multivar", enc + "CaseInsensitiveOrderedMultiDict"],
                bounds="every sequence of 4 operations (as C20b.sequences)", outside="longer", time_budget=6000, tiers=("thorough",)),
-        KCheck("C20b.sequences", h_sequences, parts=[{"steps": 3, "op0": o, "key0": k} for o in range(3) for k in range(2)],
+        KCheck("C20b.sequences", h_sequences, parts=[{"steps": 3, "op0": o, "key0": k} for o in range(3) for k in range(3)],
                encoded=[enc + "ConfigDict.set/add/remove/get_multivar", enc + "CaseInsensitiveOrderedMultiDict (__setitem__, __delitem__, get_all)",
                         enc + "ConfigFile.write_to_file/from_file"],
-               bounds="every sequence of 3 operations (4 thorough) from {set, add, remove} over 2 keys x 3 values in one subsection; the live object "
+               bounds="every sequence of 3 operations (4 thorough) from {set, add, remove} over the keys fetch / Fetch (one variable, two spellings) / url x 3 values in one subsection; the live object "
                       "after every step and the re-read file are compared with an ordered list model (multi-valued keys keep order)",
                outside="longer sequences; several sections", tiers=q),
     ]
